@@ -201,6 +201,11 @@ def run(ctx):
                         {"kind": "cross-format", "a": vcore.replay_file(base), "b": vcore.replay_file(r)})
                 break
 
+    # hand-built files: content a layout must not have, unusual JSON text (harness/c14text.py)
+    from harness import c14text
+    tx_n, tx_bad = c14text.run(ctx)
+    for what, rp in tx_bad[:4]:
+        ctx.violation("both containers, hand-built files: " + what[:500], rp)
     # tools
     tools_cov = {}
     try:
@@ -218,6 +223,9 @@ def run(ctx):
         ctx.oblige("tools-module-present", False, "harness/c14tools.py missing")
 
     extra = {"format_reassignment": dict(st, **cross), "tools": tools_cov,
+             "hand_built_files": {"cases": tx_n, "problems": len(tx_bad),
+                                  "what": "layout-level content violations signed by the owner (5 kinds) and JSON text variants "
+                                          "(member order / raw UTF-8 / raw control characters in link and layout) in both containers"},
              "base_scenarios": len(groups), "runs_per_scenario": round(len(recs) / max(1, len(groups)), 2)}
     return vcore.report(
         ctx, "C14", recs, model, PROPS,
@@ -237,6 +245,16 @@ def _short(v):
 
 def replay(ctx, obj):
     r = obj["replay"]
+    if r.get("kind") == "c14text":
+        from harness import c14text
+        _, bad = c14text.run(ctx)
+        for what, _rp in bad:
+            print("  -> " + what[:400])
+        if bad:
+            print("VIOLATION property=C14 replay=%s" % obj.get("rerun", "").split()[-1])
+            return 1
+        print("agree")
+        return 0
     if r.get("kind") == "tool":
         from harness import c14tools
         v = c14tools.replay_tool(ctx, r["tool_replay"])
